@@ -73,6 +73,13 @@ def gen(ctx):
             raw += le(len(part), 3) + bytes([sid]) + part
         c = mk_case("c20f_%d" % n, [("rawbytes", raw)], [], lim=lim)
         cases.append(c)
+    # fragmented commands (valid and with a bad continuation) under small-chunk delivery
+    for lim in (4, 8, 255):
+        for ln in (lim, lim + 1, 2 * lim, 2 * lim + 3, 3 * lim):
+            for chunk in (1, 3, lim + 5):
+                n += 1
+                payload = b"\x03" + b"q" * (ln - 1)
+                cases.append(mk_case("c20g_%d" % n, [("query", payload, rng.choice([0, 254])), ("ping", cmd_ping(), 0)], [], lim=lim, chunks=[chunk]))
     # malformed handshakes
     hs = hs41(b"jon")
     for k in range(len(hs) + 1):
